@@ -270,6 +270,22 @@ class Gen:
         objs = []
         if has_value:
             objs.append({"type": "maximize-value"})
+        shape = r.random()
+        if shape < 0.15:
+            # unusual but valid: unassigned jobs traded against cost inside one competitive layer
+            objs.append({"type": "multi-objective", "strategy": {"name": "weighted-sum", "weights": [100.0, 1.0]},
+                         "objectives": [{"type": "minimize-unassigned"}, cost]})
+            if has_order and f['softorder']:
+                objs.append({"type": "tour-order"})
+            return objs
+        if shape < 0.3:
+            # a soft objective ranked above the number of unassigned jobs
+            objs.append({"type": r.choice(["minimize-tours", "balance-activities", "minimize-arrival-time"])})
+            objs.append({"type": "minimize-unassigned"})
+            if has_order and f['softorder']:
+                objs.append({"type": "tour-order"})
+            objs.append(cost)
+            return objs
         objs.append({"type": "minimize-unassigned"} if r.random() < 0.7 else {"type": "minimize-unassigned", "breaks": 1.0})
         if has_order and f['softorder']:
             objs.append({"type": "tour-order"})
